@@ -6,6 +6,10 @@ import json, os, shutil, subprocess, sys, tempfile, time
 src, prop, k = sys.argv[1], sys.argv[2], sys.argv[3]
 dst = '/verif/seeded/%s-%s' % (prop, k)
 patch = os.path.join(src, 'patch.diff'); demo = os.path.join(src, 'demo.py')
+original = None
+if os.path.exists(os.path.join(src, 'patch.ported.diff')):
+    # the author's patch no longer applies because a later fix: commit changed the surrounding lines; same change, re-based by hand
+    original, patch = patch, os.path.join(src, 'patch.ported.diff')
 meta = json.load(open(os.path.join(src, 'meta.json'))) if os.path.exists(os.path.join(src, 'meta.json')) else {}
 wt = tempfile.mkdtemp(prefix='ks-', dir='/tmp'); os.rmdir(wt)
 subprocess.check_call(['git', '-C', '/repo', 'worktree', 'add', '-q', '--detach', wt, 'HEAD'])
@@ -50,6 +54,11 @@ try:
     rec['confirmed'] = bool(ok)
     os.makedirs(dst, exist_ok=True)
     shutil.copy(patch, dst + '/patch.diff'); shutil.copy(demo, dst + '/demo.py')
+    if original:
+        shutil.copy(original, dst + '/patch.original.diff')
+        rec['ported'] = 'patch.diff is the author\'s change (patch.original.diff) re-based by hand onto /repo HEAD %s' % rec['repo_commit']
+    if original:
+        rec['ported'] = 'patch.diff is the author\'s change (patch.original.diff) re-based by hand onto /repo HEAD %s' % rec['repo_commit']
     json.dump(rec, open(dst + '/meta.json', 'w'), indent=1)
     print('%s-%s confirmed=%s tests=[%s] demo=%s/%s caught_by=%s' % (prop, k, ok, out[-60:], d['changed']['exit'], d['unchanged']['exit'], rec['caught_by']))
 finally:
